@@ -156,10 +156,13 @@ MovesGS(h, kn) ==
     IN  IF ~(has("a") /\ has("b")) THEN <<>> ELSE
         (IF has("g") /\ t.part = <<>> /\ ~Summarized(t) THEN <<MGroupBy(i, <<c("g")>>, FALSE)>> ELSE <<>>)
         \o (IF ~has("w") THEN <<MMutate(i, <<KV("w", Win("row_number", <<>>, <<Ord(c("b"), FALSE, "first"), Ord(c("a"), TRUE, "last")>>))>>),
-                                 MMutate(i, <<KV("w", Agg("sum", c("b")))>>)>> ELSE <<>>)
+                                 MMutate(i, <<KV("w", Agg("sum", c("b")))>>),
+                                 \* a window function / an aggregate only in the CONDITION of a case expression
+                                 MMutate(i, <<KV("w", Case1D(Fn2("gt", Win("row_number", <<>>, <<Ord(c("b"), FALSE, "first"), Ord(c("a"), TRUE, "last")>>), LitI(2)), LitI(1), LitI(0)))>>),
+                                 MMutate(i, <<KV("w", Case1D(Fn2("gt", c("b"), Agg("min", c("b"))), LitI(1), LitI(0)))>>)>> ELSE <<>>)
         \o (IF has("w") THEN <<MFilter(i, <<Fn2("le", CN("w"), LitI(2))>>)>> ELSE <<>>)
         \o <<MFilter(i, <<Fn2("gt", c("b"), LitI(0))>>)>>
-        \o (IF t.part = <<>> THEN <<MSlice(i, 3, 0)>> ELSE <<>>)
+        \o (IF t.part = <<>> THEN <<MSlice(i, 3, 0), MSlice(i, 0, 0)>> ELSE <<>>)          \* slice_head(0) is a limit, too
         \o (IF ~Summarized(t) THEN <<MSummarize(i, <<KV("s", Agg("sum", c("b"))), KV("n", Len0)>>)>> ELSE <<>>)
         \o <<MArrange(i, <<Ord(c("b"), FALSE, "first"), Ord(c("a"), TRUE, "last")>>)>>
         \o (IF t.part # <<>> THEN <<MUngroup(i)>> ELSE <<>>)
@@ -279,7 +282,9 @@ TyExprs(t) ==
               Fn2("round", Col(c), LitI(-1)), Fn2("round", Col(c), LitI(0)), Fn2("round", Col(c), LitI(1)),
               Fn3("clip", Col(c), LitF(1, 2), LitF(5, 2)), Fn3("clip", Col(c), LitI(0), LitI(2)),
               Fn2("fill_null", Col(c), LitF(1, 2)), FnN("hmax", <<Col(c), LitF(1, 2)>>), FnN("coalesce", <<Col(c), LitF(1, 2)>>),
-              FnN("is_in", <<Col(c), LitI(1), LitF(1, 2)>>), Fn2("pow", Col(c), LitI(2))>>))
+              FnN("is_in", <<Col(c), LitI(1), LitF(1, 2)>>), Fn2("pow", Col(c), LitI(2)),
+              \* functions declared on Float applied to an integer column (implicit conversion: the result is Float)
+              Fn1("floor", Col(c)), Fn1("ceil", Col(c))>>))
         \* two integer columns of different width / signedness in one expression
         \o (IF Len(iv) >= 2 THEN <<Case1D(Fn2("gt", Col(iv[1]), LitI(0)), Col(iv[1]), Col(iv[2])), FnN("hmax", <<Col(iv[1]), Col(iv[2])>>),
                                     FnN("coalesce", <<Col(iv[1]), Col(iv[2])>>), Fn2("add", Col(iv[1]), Col(iv[2])),
